@@ -29,7 +29,8 @@ def cases(ctx):
     yield {"hist": [("new", sq, "frac"), ("float", 0), ("rot", 0, (F(3, 5), F(4, 5))), ("scale", 0, (F(3), F(1, 2)))], "probe": 0}
     for i in range(ctx.n(20, 500)):
         h = H.gen_history(rng, rng.randint(2, 7), nvars0=2, R=rng.choice([6, 10]),
-                          weights={"bin": 4, "copy": 1, "not": 1, "move": 2, "scale": 3, "rot": 1, "contains": 2, "float": 3})
+                          weights={"bin": 4, "copy": 1, "not": 1, "move": 2, "scale": 3, "rot": 1, "contains": 2, "float": 3},
+                          signed_scale=True)
         yield {"hist": h, "probe": rng.randrange(2), "proc": i % 6 == 0}
     for i in range(ctx.n(6, 150)):
         from .. import opcases as OC
@@ -54,8 +55,18 @@ def _battery(S, T):
     b = S.box()
     out["box"] = [float(b.lowpt[0]), float(b.lowpt[1]), float(b.toppt[0]), float(b.toppt[1])]
     pts = [(0, 0), (1, 1), (-3, 2), (F(7, 2), F(-5, 3)), (10, 10)]
-    vs = S.jordans[0].vertices
-    pts += [tuple(vs[0]), ((vs[0][0] + vs[1][0]) / 2, (vs[0][1] + vs[1][1]) / 2)]
+    # boundary probes chosen independently of the order of the curves: the lexicographically smallest vertex
+    # and the midpoint of the edge that starts there
+    best = None
+    for j in S.jordans:
+        vs = j.vertices
+        for i, v in enumerate(vs):
+            key = (float(v[0]), float(v[1]))
+            if best is None or key < best[0]:
+                w = vs[(i + 1) % len(vs)]
+                best = (key, tuple(v), ((v[0] + w[0]) / 2, (v[1] + w[1]) / 2))
+    pts += [best[1], best[2]]
+    out["lengths"] = sorted(out["lengths"])
     out["mem"] = [[bool(S.contains_point(p, True)), bool(S.contains_point(p, False))] for p in pts]
     out["selfeq"] = I.outcome(lambda: bool(S == copy.deepcopy(S)))
     out["T in S"] = I.outcome(lambda: bool(T in S))
